@@ -3,7 +3,7 @@ from ..propbase import deductive, lines_universe, inline_universe, STD_TRUST, AL
 from ..report import Report
 
 SB = "markdown_it.rules_block.state_block.StateBlock."
-FUNCS = [SB + m for m in ("skipSpaces", "skipCharsStr", "skipSpacesBack", "skipCharsStrBack", "skipEmptyLines")] + [
+FUNCS = [SB + "__init__"] + [SB + m for m in ("skipSpaces", "skipCharsStr", "skipSpacesBack", "skipCharsStrBack", "skipEmptyLines")] + [
     "markdown_it.rules_block.hr.hr", "markdown_it.rules_block.heading.heading", "markdown_it.rules_block.lheading.lheading", "markdown_it.rules_block.fence.fence", "markdown_it.rules_block.code.code",
     "markdown_it.rules_block.html_block.html_block", "markdown_it.rules_block.paragraph.paragraph"]
 
